@@ -157,6 +157,24 @@ notes_strength = {
  "agent7-C15": "strengthened: missed at first; every fault kind once more in a file that begins with blank lines and in an included file that begins with blank lines (the error names the line counted in its file)",
  "agent7-C16": "caught as the check stood (sizes of 2^32 and more)",
  "agent7-C17": "strengthened: missed at first; the pool holds programs that define one name several times in different spellings (macro redefined in another letter case, under .ifdef, three times; .set/.def/#define in several spellings)",
+ "agent10-C01": "caught as the check stood (the location counter in mixed letter case in the relative forms)",
+ "agent10-C02": "strengthened before it was confirmed: half of the backward-`.org` negatives have only a label behind the origin, a look at another segment, and the item arriving later without an origin of its own",
+ "agent10-C03": "strengthened before it was confirmed: every far-case target once more as a difference with pc on the right (`t + 2 - pc` at word 1 names the address `pc + t`), against the build of the plain spelling",
+ "agent10-C04": "strengthened before it was confirmed: two more computed shapes, `lwrd(v)` and `HWRD(v << 16)`, which leave the value as it is",
+ "agent10-C05": "strengthened before it was confirmed: a label behind code, pc, .equ and .set symbols plus / minus / times a number that takes the result out of 64 bits (must fail, on either side of the operator)",
+ "agent10-C06": "strengthened before it was confirmed: -2^63 (only reachable as a computed value: `1 << 63`, `~0x7fff...`, `-9223372036854775807 - 1`, through an .equ) in .db/.dw/.dd (must fail) and .dq (stored)",
+ "agent10-C07": "caught as the check stood (one object patched in place, same lengths, other contents, images of 64 KiB and more)",
+ "agent10-C08": "strengthened before it was confirmed: 100 to 70000 conditional blocks open at once inside skipped text, four kinds of opener, lines between the inner `.endif`s, `.else` of every third inner block, the outer `.else` behind them",
+ "agent10-C09": "strengthened before it was confirmed: three probes of parameters that are only mentioned in a `;`, `//` or `/* */` comment of the body and not supplied by the call (props/variants.rs' respelling caught it as well)",
+ "agent10-C10": "strengthened before it was confirmed: under a selected part a quarter of the code labels bear names the part files use for their figures (ramend, flashend, sram_start, e2end, pagesize ...)",
+ "agent10-C11": "strengthened before it was confirmed: chains whose taken branch is followed by `.elif` arms (and an `.else`), which the splitter may leave as the last lines of a file",
+ "agent10-C12": "strengthened before it was confirmed: every name one grade letter, one digit or one prefix away from a table name that is not itself in the table (about 900), directly and as a macro argument: unknown",
+ "agent10-C13": "strengthened before it was confirmed: programs of nothing but lacking instructions, 2 to 65536 of them on the 64 Ki-word parts",
+ "agent10-C14": "strengthened before it was confirmed: for every third program an `.ifdef` / `.ifndef` / `#ifdef` / `#ifndef` on one of its `.equ` / `.set` names or labels in four spellings: whatever such a test means, it means the same in every letter case",
+ "agent10-C15": "strengthened before it was confirmed: the same `.message` / `.warning` 2 to 1000 times in a row (macro called again, line repeated, macro with an argument in between, file included again): every one is in the list with its line",
+ "agent10-C16": "caught as the check stood (character adjacency: multi-byte characters behind `@` in macro bodies called with arguments, added after round 3)",
+ "agent10-C17": "strengthened before it was confirmed: seven file programs that include a part file naming a part the table lacks but several table names begin (ATmega88PA, ATmega168PA, ...) and use what differs between the candidates",
+ "agent10-C18": "strengthened before it was confirmed: sources whose EEPROM (and flash) data looks erased - aligned runs of sixteen 0xFF bytes - through every option set",
  "agent9-C01": "strengthened before it was confirmed: one number in twelve of the instruction sweep is written as the character literal with that code (controls, blanks and Latin-1 included)",
  "agent9-C02": "strengthened: missed at first; on a third of the excursions the other segment gets an origin as well and is left again at once, so that two origins of different segments wait for their first item at the same time",
  "agent9-C03": "strengthened: branch targets named like a #define that was ended again by #undef / .undef in the same or another letter case: the build fails, or the branch reaches the label - never the 0 of the #define",
